@@ -13,6 +13,8 @@ OWN = {
     "C04": r"^(C02\.ref|C02\.absent|C02\.wellformed|C02\.kind|C01)",
     "C06": r"^(C06|C02\.(?!dateUnit)|C07\.exact|C08\.exact|C09|C10\.instant|C16\.panic)",
     "C15": r"^(C15|trace)",
+    "C03": r"^(C03|C06\.carrier)",
+    "C05": r"^(C05|C03\.(panic|error|consumed)|C06\.carrier)",
     "C13": r"^(C13|C02|C01\.encpanic|C01\.encerr)",
 }
 
@@ -103,6 +105,102 @@ def plan_codec(fam, mc=None, note="", module="TraceCodec", level="model_checking
         codec_stage(run, tmp, hx, known, fam, fam, module=module, selftest=selftest)
         return V.finish(run, level, note)
     return f
+
+
+HCODEC_CFG = """SPECIFICATION Spec
+CONSTANTS DefMode = "%(defmode)s"
+          PreDefs = %(predefs)s
+          MaxChunks = %(maxchunks)d
+          Deviation = "%(deviation)s"
+          Wide = %(wide)s
+          MaxDev = %(maxdev)d
+%(checks)s
+CHECK_DEADLOCK FALSE
+"""
+
+
+def hcodec_cfg(**kw):
+    d = dict(defmode="exact", predefs="{0}", maxchunks=2, deviation="none", wide="TRUE", maxdev=2, checks="INVARIANTS Emit")
+    d.update(kw)
+    return HCODEC_CFG % d
+
+
+def alt_stage(run, tmp, hx, known, name, fam, mode, cfgtext, simulate=None, mc_note=""):
+    """values from the harness -> encodings from the TLA+ reference encoder -> real decoder -> TLC validation"""
+    vdir = V.os.path.join(tmp, "vals_" + name)
+    V.run_hx(hx, ["altvalues", "-family", fam, "-seed", str(run.seed), "-tier", run.tier, "-out", vdir])
+    d = V.spec_dir(tmp, "gen_" + name)
+    vp = V.os.path.join(d, "values.ndjson")
+    if V.os.path.lexists(vp):
+        V.os.remove(vp)
+    V.os.symlink(V.os.path.join(vdir, "values.ndjson"), vp)
+    vec = V.os.path.join(tmp, "vec_%s.ndjson" % name)
+    extra = ()
+    workers = 8
+    if simulate:
+        extra = ("-simulate", "num=%d" % max(1, simulate // 8), "-depth", "20000", "-seed", str(run.seed))
+        workers = 8
+    r = V.tlc_vectors(tmp, "HCodec", name, cfgtext, vec, workers=workers, extra=extra, timeout=2400)
+    run.add_mc("HCodec/" + name, r, mc_note or "reference encoder: every choice within the stated bounds enumerated; each complete behaviour printed as a vector")
+    out = V.os.path.join(tmp, "tr_" + name)
+    hxargs = ["altreplay", "-family", fam, "-mode", mode, "-vectors", vec]
+    V.run_hx(hx, hxargs + ["-seed", str(run.seed), "-tier", run.tier, "-out", out, "-shards", str(V.NCPU)])
+    shards = V.shard_files(out)
+    v = V.validate_shards(tmp, "TraceCodec", shards, name)
+    summary = V.json.load(open(V.os.path.join(out, "summary.json")))
+    summary["vectors_from_tlc"] = r["vectors"]
+    gen_bad = [x for x in v["rejs"] if x[1].startswith("gen.")]
+    if gen_bad:
+        raise V.Infra("the reference encoder produced an encoding the reference decoder does not accept (specification bug, no verdict): %s" % gen_bad[:5])
+    mine = owned(run.prop, v["rejs"])
+    summary["rejections_owned_by_other_properties"] = len(v["rejs"]) - len(mine)
+    v["rejs"] = mine
+    run.add_validation(name, v, summary)
+    V.judge(run, known, mine, shards, dict(hx=hxargs, seed=run.seed, tier=run.tier, module="TraceCodec", note="vectors must be regenerated by the generator configuration " + name))
+
+
+def hcodec_mc(run, tmp, hx, fam="small"):
+    vdir = V.os.path.join(tmp, "vals_mc_" + fam)
+    V.run_hx(hx, ["altvalues", "-family", fam, "-seed", str(run.seed), "-tier", run.tier, "-out", vdir])
+    for cfg, expect, note in (("HCodec_mc", "ok", "ParseBack (encoder and reference decoder inverse, RefAgreement, TablesAgree), RefTable, Terminates over the %s universe, <=2 non-canonical choices per encoding" % fam),
+                              ("HCodec_neg", "ParseBack", "negative: ref ordinal consumed by empty containers / timestamps violates ParseBack")):
+        d = V.spec_dir(tmp, "mc_" + cfg + "_" + fam)
+        vp = V.os.path.join(d, "values.ndjson")
+        if V.os.path.lexists(vp):
+            V.os.remove(vp)
+        V.os.symlink(V.os.path.join(vdir, "values.ndjson"), vp)
+        r = V.run_tlc(d, "HCodec", cfg, workers=V.NCPU, timeout=2400, heap="8g")
+        ok = ("No error has been found" in r["out"]) if expect == "ok" else (("Invariant %s is violated" % expect) in r["out"])
+        if not ok:
+            raise V.Infra("model checking %s did not give the expected result (%s):\n%s" % (cfg, expect, r["out"][-3000:]))
+        run.add_mc(cfg + "/" + fam, r, note)
+
+
+def plan_c03(run, tmp):
+    known = V.load_known()
+    hx = V.build_harness(tmp)
+    hcodec_mc(run, tmp, hx)
+    th = run.tier == "thorough"
+    alt_stage(run, tmp, hx, known, "c03small", "small", "exact",
+              hcodec_cfg(predefs="{0, 1, 17}", maxdev=3 if th else 2, maxchunks=3 if th else 2))
+    alt_stage(run, tmp, hx, known, "c03rand", "rand", "exact",
+              hcodec_cfg(predefs="{0, 3}", maxdev=100000, maxchunks=6), simulate=20000 if th else 1500,
+              mc_note="reference encoder in simulation mode: encoding choices drawn from the seed for generated values (long strings, binaries, lists included)")
+    return V.finish(run, "model_checking", "the TLA+ reference encoder (HCodec) enumerates / draws legal encodings; each is decoded by the real decoder and TLC compares the result with the decoding of the library's own rendering")
+
+
+def plan_c05(run, tmp):
+    known = V.load_known()
+    hx = V.build_harness(tmp)
+    th = run.tier == "thorough"
+    allk = "{" + ", ".join(str(k) for k in range(0, 41)) + "}"
+    alt_stage(run, tmp, hx, known, "c05small", "c05s", "vary",
+              hcodec_cfg(defmode="vary", predefs=allk if th else "{0, 2, 15, 16, 40}", maxdev=2 if th else 1, wide="FALSE"),
+              mc_note="every permutation / subset / one unknown field (9 kinds of unknown value) of the class definitions of the small objects x definition index k x short/long instance form")
+    alt_stage(run, tmp, hx, known, "c05five", "c05", "vary",
+              hcodec_cfg(defmode="vary", predefs=allk, maxdev=100000, wide="TRUE", maxchunks=2), simulate=60000 if th else 2000,
+              mc_note="simulation: definition variants of 5- and 16-field structs, definition index 0..40, unknown fields carrying containers")
+    return V.finish(run, "model_checking", "class definitions varied by the TLA+ reference encoder (permuted, with fields dropped, with an unknown field at any position carrying any kind of value, at definition index 0..40, short and long instance form); the real decoder's result is compared by TLC with the value whose dropped fields are zero")
 
 
 def plan_pool(run, tmp):
@@ -206,6 +304,8 @@ PLANS = {
     "C06": plan_codec("c06", None, "multi-value streams through one encoder/decoder and one serializer over a counting reader; TLC threads the stream state (class, type and ref tables) through the whole history: framing offsets, denotation with cross-value refs, order, no carrier"),
     "C15": plan_codec("c15", fault_mc, "fault enumeration: for each value and writer-taking entry point every Write index k x 4 fault kinds is executed against the real encoder; each run's writer log is replayed by TLC through HFault (FaultSurfaces)", module="TraceFault", level="fault_enumeration", selftest=False),
     "C17": plan_pool,
+    "C03": plan_c03,
+    "C05": plan_c05,
     "C13": plan_codec("c13", None, "encode calls on values containing an unsupported kind at every position: TLC requires an error (no panic, no success), and well-formed output for the control values"),
     "C10": plan_codec("c10", scalar_mc, "timestamp round trips validated by TLC at millisecond resolution"),
 }
